@@ -238,6 +238,22 @@ pub fn vec_eq<T: PartialEq>(a: &Vec<T>, b: &Vec<T>) -> bool {
     true
 }
 
+pub fn default_clone_from<T: Clone>(dst: &mut T, src: &T) { *dst = src.clone(); }
+pub fn vec_clone_from<T: Clone>(dst: &mut Vec<T>, src: &Vec<T>) {
+    while dst.len() > src.len() { dst.pop(); }
+    let n = dst.len();
+    let mut i = 0;
+    while i < n { dst[i].clone_from(&src[i]); i += 1; }
+    while i < src.len() { dst.push(src[i].clone()); i += 1; }
+}
+pub fn write_pieces<W: core::fmt::Write>(w: &mut W, strs: &[&str], chars: &[char], is_char: &[bool]) -> core::fmt::Result {
+    let mut i = 0;
+    while i < strs.len() {
+        if is_char[i] { w.write_char(chars[i])?; } else { w.write_str(strs[i])?; }
+        i += 1;
+    }
+    Ok(())
+}
 pub fn vec_extend<T, I: IntoIterator<Item = T>>(v: &mut Vec<T>, it: I) {
     let mut it = it.into_iter();
     while let Some(x) = it.next() { v.push(x); }
